@@ -6,6 +6,15 @@ import typing as t
 
 from hypothesis import strategies as st
 
+_MEMO: t.Dict[str, t.Any] = {}
+
+
+def memo(name: str, build: t.Callable[[], t.Any]) -> t.Any:
+    """Build a strategy once per process (constructing strategies inside @composite is slow)."""
+    if name not in _MEMO:
+        _MEMO[name] = build()
+    return _MEMO[name]
+
 # ---------------------------------------------------------------------------------------- integers
 
 _K = st.integers(0, 72)
